@@ -103,7 +103,7 @@ def concat(sequence: ArrayT, second_array: ArrayT) -> ArrayT:
         )
 
     if is_undefined(sequence):
-        return second_array
+        return list(second_array)
 
     return list(chain(sequence, second_array))
 
